@@ -476,6 +476,63 @@ theorem addWd_spec (m : Msg) (f : Fam) (ap : Bool) (b : NlBuilder f) (hb : b.wd 
     | err => exact ⟨[], hnil, by cases ap <;> rfl, by simpa using congrArg Outcome.ok hb'⟩
     | panic => exact absurd hbts (typedWdBytes_noPanic m f)
 
+/-- **the re-add of the announcements on a builder that already has an MP_REACH_NLRI builder**
+(update_builder.rs:250 `if let Some(ref mut b) = self.announcements`; request `nlt`): it never
+fails and EXTENDS what the builder holds - its own NLRI first, then the `Ok` prefix of the
+message's announcements of the builder's family -/
+theorem addAnn_ext_spec (m : Msg) (f : Fam) (ap : Bool) (b : NlBuilder f) (l0 : List (Nat × f.Val))
+    (hb : b.ann = some l0) :
+    ∃ l, NlrisWf f ap l ∧ okPrefix (annView m f ap) = anyNlris f ap l ∧
+      addAnnouncementsFromPdu m f ap b = .ok { b with ann := some (l0 ++ l) } := by
+  obtain ⟨z, hz, hzero⟩ := countIsZero_ann m
+  have hnil : NlrisWf f ap [] := by cases ap <;> simp [NlrisWf]
+  have hb' : b = { b with ann := some (l0 ++ []) } := by cases b; simp_all
+  unfold addAnnouncementsFromPdu
+  rw [hz]
+  cases z with
+  | true =>
+    refine ⟨[], hnil, ?_, by simpa using congrArg Outcome.ok hb'⟩
+    rw [hzero rfl f ap]; cases ap <;> rfl
+  | false =>
+    simp only [hb, mpReachAddFromPdu]
+    rw [annView_bytes]
+    cases hbts : typedAnnBytes m f with
+    | ok x =>
+      cases x with
+      | none => exact ⟨[], hnil, by cases ap <;> rfl, by simp⟩
+      | some bs =>
+        obtain ⟨l, h1, h2, h3⟩ := takeNlri_spec f ap bs
+        exact ⟨l, h2, h3, by simp only [h1]⟩
+    | err => exact ⟨[], hnil, by cases ap <;> rfl, by simp⟩
+    | panic => exact absurd hbts (typedAnnBytes_noPanic m f)
+
+/-- the same for the withdrawals (update_builder.rs:277) -/
+theorem addWd_ext_spec (m : Msg) (f : Fam) (ap : Bool) (b : NlBuilder f) (l0 : List (Nat × f.Val))
+    (hb : b.wd = some l0) :
+    ∃ l, NlrisWf f ap l ∧ okPrefix (wdView m f ap) = anyNlris f ap l ∧
+      addWithdrawalsFromPdu m f ap b = .ok { b with wd := some (l0 ++ l) } := by
+  obtain ⟨z, hz, hzero⟩ := countIsZero_wd m
+  have hnil : NlrisWf f ap [] := by cases ap <;> simp [NlrisWf]
+  have hb' : b = { b with wd := some (l0 ++ []) } := by cases b; simp_all
+  unfold addWithdrawalsFromPdu
+  rw [hz]
+  cases z with
+  | true =>
+    refine ⟨[], hnil, ?_, by simpa using congrArg Outcome.ok hb'⟩
+    rw [hzero rfl f ap]; cases ap <;> rfl
+  | false =>
+    simp only [hb, mpUnreachAddFromPdu]
+    rw [wdView_bytes]
+    cases hbts : typedWdBytes m f with
+    | ok x =>
+      cases x with
+      | none => exact ⟨[], hnil, by cases ap <;> rfl, by simp⟩
+      | some bs =>
+        obtain ⟨l, h1, h2, h3⟩ := takeNlri_spec f ap bs
+        exact ⟨l, h2, h3, by simp only [h1]⟩
+    | err => exact ⟨[], hnil, by cases ap <;> rfl, by simp⟩
+    | panic => exact absurd hbts (typedWdBytes_noPanic m f)
+
 /-! ### what `finish` writes -/
 
 theorem encAll_length {α : Type} {c : Codec α} (h : c.Laws) : ∀ (ns : List α) (b : Bytes),
